@@ -231,6 +231,15 @@ func SelfTestHashes() error {
 	if got := RIPEMD160(bytes.Repeat([]byte("a"), 1000000)); hex.EncodeToString(got[:]) != "52783243c1697bdbe16d37f97f68f08325dc1528" {
 		return fmt.Errorf("RIPEMD160(million a) = %x", got)
 	}
+	// the streaming drivers agree with the one-shot functions on every padding class
+	for _, n := range []int{0, 1, 55, 56, 57, 63, 64, 65, 119, 120, 128, 1000} {
+		m := bytes.Repeat([]byte{0x5a}, n)
+		a, _ := MD4Reader(bytes.NewReader(m))
+		b, _ := RIPEMD160Reader(bytes.NewReader(m))
+		if a != MD4(m) || b != RIPEMD160(m) {
+			return fmt.Errorf("streaming reference differs from one-shot reference at length %d", n)
+		}
+	}
 	return nil
 }
 
